@@ -33,6 +33,10 @@ def x_obligations(tier):
     for i in (1, 2, 3, 29):
         o.append(Obl(f"C01-history[after call#{i}]", "xhair.obl.c13", "pair", env={"VF_IDX": str(i), "VF_FIRST": "local"}, timeout=170 if tier == "quick" else 600, family="C01-history",
                      bound=f"history (call #{i}: a uri / Sid object with a forced type, call j) for every j of the call alphabet of C13, caches on"))
+    # the cache in front of Sid(): the wrapper kernel under forced eviction (capacity 1 and 2), histories of 4 calls
+    for ms in (1, 2):
+        o.append(Obl(f"C01-cache-kernel[lru_cache,cap={ms}]", "xhair.obl.c13", "wrap", env={"VF_WRAPPER": "lru_cache", "VF_MAXSIZE": str(ms), "VF_M1": "0", "VF_M2": "0", "VF_M3": "0"}, timeout=170 if tier == "quick" else 600,
+                     family="C01-history", bound="spil.util.caching.lru_cache (the decorator of sid_to_sid) around a pure function: 3 calls + the first again, capacity %d" % ms))
     o.append(Obl("C01-reach[len<=6]", M, "reach_typed", env={"VF_N": "6"}, timeout=150, expect="refute", family="C01-twin"))
     return o
 
